@@ -1,34 +1,35 @@
 import Ptk.Proto
-import Ptk.Gen.C11
-import Ptk.Model.C11
+import Ptk.Model.C11W
 open Ptk Ptk.Py Ptk.Proto Ptk.C11
-
-/-- runtime character classes regenerated from the current tree / interpreter -/
-def genW : Widths := { rw := Gen.C11.rawWidth, disp := Gen.C11.display,
-                        dm := Gen.C11.measuresDisplayWidth, exact := Gen.C11.exactWrappedHeight }
 
 def decChar (tok : String) : Option Char := tok.toNat?.map Char.ofNat
 
+mutual
+/-- parse one processor from the token list -/
+partial def parseProc : List String → Option (Proc × List String)
+  | "T" :: ts :: c1 :: c2 :: rest => do pure (Proc.tabs (← decNat ts) (← decChar c1) (← decChar c2), rest)
+  | "B" :: t :: rest => do pure (Proc.before (← decStr t), rest)
+  | "A" :: t :: rest => do pure (Proc.after (← decStr t), rest)
+  | "P" :: c :: rest => do pure (Proc.password (← decChar c), rest)
+  | "L" :: c :: rest => do pure (Proc.leading (← decChar c), rest)
+  | "R" :: c :: rest => do pure (Proc.trailing (← decChar c), rest)
+  | "I" :: rest => some (Proc.ident, rest)
+  | "C" :: b :: rest => do          -- ConditionalProcessor / DynamicProcessor
+    let b ← decBool b
+    let (p, r) ← parseProc rest
+    pure (Proc.cond b p, r)
+  | "M" :: n :: rest => do          -- nested merge_processors
+    let (ps, r) ← parseProcs (← decNat n) rest
+    pure (Proc.group ps, r)
+  | _ => none
 /-- parse `n` processors from the token list -/
-def parseProcs : Nat → List String → Option (List Proc × List String)
+partial def parseProcs : Nat → List String → Option (List Proc × List String)
   | 0, rest => some ([], rest)
-  | n + 1, "T" :: ts :: c1 :: c2 :: rest => do
-    let p := Proc.tabs (← decNat ts) (← decChar c1) (← decChar c2)
-    let (ps, r) ← parseProcs n rest
+  | n + 1, toks => do
+    let (p, r) ← parseProc toks
+    let (ps, r) ← parseProcs n r
     pure (p :: ps, r)
-  | n + 1, "B" :: t :: rest => do
-    let p := Proc.before (← decStr t)
-    let (ps, r) ← parseProcs n rest
-    pure (p :: ps, r)
-  | n + 1, "A" :: t :: rest => do
-    let p := Proc.after (← decStr t)
-    let (ps, r) ← parseProcs n rest
-    pure (p :: ps, r)
-  | n + 1, "P" :: c :: rest => do
-    let p := Proc.password (← decChar c)
-    let (ps, r) ← parseProcs n rest
-    pure (p :: ps, r)
-  | _, _ => none
+end
 
 def encCell (t : Text) : String := ".".intercalate (t.map fun c => toString c.toNat)
 
@@ -45,7 +46,7 @@ def showMaps (procs : List Proc) (text : Text) (cy : Nat) : String :=
   let d2s := (List.range (tr.frags.length + 2)).map fun (j : Nat) => toString (tr.d2s (j : Int))
   s!"pm {s2d.length} " ++ " ".intercalate s2d ++ s!" dm {d2s.length} " ++ " ".intercalate d2s
 
-def showRendered (r : Rendered) (ypos : Int) (height : Nat) (maps : String) : String :=
+def showRendered (r : Rendered) (xpos ypos : Int) (tw height mw : Nat) (maps : String) : String :=
   let st := r.st
   let (cyS, cxS) := cursorScreen st r.cy r.cx
   let vl := st.vl.reverse
@@ -53,18 +54,50 @@ def showRendered (r : Rendered) (ypos : Int) (height : Nat) (maps : String) : St
   let vlS := vl.foldl (fun acc (y, row, col) => acc ++ s!" {y} {row} {col}") s!"vl {vl.length}"
   let rcS := rc.foldl (fun acc ((row, col), (y, x)) => acc ++ s!" {row} {col} {y} {x}") s!"rc {rc.length}"
   let rows := (List.range height).map fun (y : Nat) => encRow st.cells (ypos + (y : Int)) r.xoff r.width.toNat
-  s!"{r.scroll.vs} {r.scroll.hs} {r.scroll.vs2} {r.cy} {r.cx} {r.width} {r.xoff} {cyS} {cxS} {vlS} {rcS} {maps} " ++
-    " ".intercalate rows
+  let (mx0, mx1) := mouseXRange Gen.C11.mouseRegionFixed xpos tw mw
+  let mr := if mx0 < mx1 then s!"{mx0} {mx1}" else "E"
+  -- the cells of the numbered margin, row by row
+  let dl := displayedLines st
+  let mg := (List.range height).map fun (k : Nat) =>
+    "m:" ++ ",".intercalate ((marginCells mw dl k).map fun c => toString c.toNat)
+  let mgS := if mw > 0 then " " ++ " ".intercalate mg else ""
+  s!"{r.scroll.vs} {r.scroll.hs} {r.scroll.vs2} {r.cy} {r.cx} {r.width} {r.xoff} {cyS} {cxS} {vlS} {rcS} {maps} mr {mr} " ++
+    " ".intercalate rows ++ mgS
 
-def stepLine (s : Scroll) (toks : List String) : Scroll × String :=
+/-- what a `click` needs from the last render -/
+structure Last where
+  r : Rendered
+  procs : List Proc
+  text : Text
+  xpos : Int
+  ypos : Int
+  tw : Nat
+  height : Nat
+  mw : Nat
+
+structure DS where
+  s : Scroll
+  last : Option Last
+
+def stepLine (d : DS) (toks : List String) : DS × String :=
   match toks with
   | ["init", a, b, c] =>
     match decInt a, decInt b, decInt c with
-    | some a, some b, some c => ({ vs := a, hs := b, vs2 := c }, "ok")
-    | _, _, _ => (s, "bad-op")
+    | some a, some b, some c => ({ s := { vs := a, hs := b, vs2 := c }, last := none }, "ok")
+    | _, _, _ => (d, "bad-op")
+  | ["click", y, x] =>
+    match decInt y, decInt x, d.last with
+    | some y, some x, some l =>
+      let (mx0, mx1) := mouseXRange Gen.C11.mouseRegionFixed l.xpos l.tw l.mw
+      -- `set_mouse_handler_for_range`: the handler is installed for these cells only
+      if l.ypos ≤ y ∧ y < l.ypos + l.height ∧ mx0 ≤ x ∧ x < mx1 then
+        let (row, col) := windowClick l.r.st l.ypos y x
+        (d, s!"{row} {col} {bufferClick l.procs l.text row col}")
+      else (d, "none")
+    | _, _, _ => (d, "bad-op")
   | "render" :: w :: h :: wrap :: xpos :: ypos :: top :: bottom :: left :: right :: beyond :: margin ::
-      hasP :: pA :: pB :: pC :: np :: rest =>
-    let r : Option (Scroll × String) := do
+      hasP :: pA :: pB :: pC :: cbV :: cbH :: np :: rest =>
+    let r : Option (DS × String) := do
       let w ← decNat w
       let h ← decNat h
       let wrap ← decBool wrap
@@ -80,6 +113,8 @@ def stepLine (s : Scroll) (toks : List String) : Scroll × String :=
       let pA ← decStr pA
       let pB ← decStr pB
       let pC ← decStr pC
+      let cbV ← decOptInt cbV
+      let cbH ← decOptInt cbH
       let np ← decNat np
       let (procs, rest) ← parseProcs np rest
       match rest with
@@ -89,11 +124,15 @@ def stepLine (s : Scroll) (toks : List String) : Scroll × String :=
         let cfg : Cfg := { xpos := xpos, ypos := ypos, top := top, bottom := bottom, left := left,
                            right := right, beyond := beyond, margin := margin,
                            pfx := if hasP then some (pA, pB, pC) else none, procs := procs }
-        match render genW cfg w h wrap text cur s with
-        | some r => pure (r.scroll, showRendered r ypos h (showMaps procs text r.cy))
-        | none => pure (s, "err:KeyError")
+        match renderCb genW cfg w h wrap text cur cbV cbH d.s with
+        | some r =>
+          let mw : Nat := (r.xoff - xpos).toNat
+          pure ({ s := r.scroll, last := some { r := r, procs := procs, text := text, xpos := xpos, ypos := ypos,
+                                                 tw := w, height := h, mw := mw } },
+                showRendered r xpos ypos w h mw (showMaps procs text r.cy))
+        | none => pure ({ d with last := none }, "err:KeyError")
       | _ => none
-    r.getD (s, "bad-op")
-  | _ => (s, "bad-op")
+    r.getD (d, "bad-op")
+  | _ => (d, "bad-op")
 
-def main : IO Unit := runS stepLine { vs := 0, hs := 0, vs2 := 0 }
+def main : IO Unit := runS stepLine { s := { vs := 0, hs := 0, vs2 := 0 }, last := none }
